@@ -1,8 +1,101 @@
-/- dispatch for the UNIT engines (filled in as the component models are added) -/
-namespace Driver.Units
+/- dispatch for the UNIT engines: each reads a transcript of the real component and replays it on the model -/
+import OtterVerif.Impl.Sketch
 
-def dispatch (cmd : String) (_args : List String) (_h : IO.FS.Stream) : IO UInt32 := do
-  IO.eprintln s!"unknown engine {cmd}"
-  return 2
+namespace Driver.Units
+open OtterVerif
+
+def splitWs (s : String) : List String := (s.splitOn " ").filter (· ≠ "")
+
+def kvOf (toks : List String) (key : String) : Option String :=
+  toks.findSome? (fun t => if t.startsWith (key ++ "=") then some ((t.drop (key.length + 1)).toString) else none)
+
+def natOf (toks : List String) (key : String) : Nat := ((kvOf toks key).bind (·.toNat?)).getD 0
+
+structure Tally where
+  scripts : Nat := 0
+  failed : Nat := 0
+  lines : Nat := 0
+  extra : List (String × Nat) := []
+
+def Tally.bump (t : Tally) (k : String) (n : Nat := 1) : Tally :=
+  match t.extra.find? (·.1 == k) with
+  | some _ => { t with extra := t.extra.map (fun p => if p.1 == k then (p.1, p.2 + n) else p) }
+  | none => { t with extra := t.extra ++ [(k, n)] }
+
+def Tally.summary (t : Tally) : String :=
+  s!"summary scripts={t.scripts} failed={t.failed} lines={t.lines} " ++ " ".intercalate (t.extra.map (fun p => s!"{p.1}={p.2}"))
+
+/-! ### sketch -/
+
+structure SkSt where
+  s : Impl.Sketch.Sketch := {}
+  hashes : List (Nat × BitVec 64) := []
+
+def skHash (st : SkSt) (k : Nat) : BitVec 64 :=
+  Gen.SketchMix.spread (((st.hashes.find? (·.1 == k)).map (·.2)).getD 0)
+
+def skStep (st : SkSt) (line : String) (t : Tally) : Except String (SkSt × Tally) :=
+  let ws := splitWs line
+  match ws with
+  | ["hash", k, h] => .ok ({ st with hashes := (k.toNat!, BitVec.ofNat 64 h.toNat!) :: st.hashes.filter (·.1 != k.toNat!) }, t)
+  | "ensure" :: n :: "=>" :: rest =>
+    let (s', changed) := Impl.Sketch.ensureCapacity st.s (BitVec.ofNat 64 n.toNat!)
+    let got := s!"len={s'.table.size} sample={s'.sampleSize.toNat} mask={s'.blockMask.toNat} size={s'.size.toNat} init={s'.initialized} digest={(Impl.Sketch.digest s').toNat}"
+    let want := " ".intercalate rest
+    if got != want then .error s!"ensureCapacity {n}: implementation {want}, model {got}"
+    else .ok ({ st with s := s', hashes := if changed then [] else st.hashes }, t.bump (if changed then "resizes" else "ensure_noop"))
+  | ["incr", k, "=>", sz, dg] =>
+    let s' := Impl.Sketch.incrementH st.s (skHash st k.toNat!)
+    let got := s!"size={s'.size.toNat} digest={(Impl.Sketch.digest s').toNat}"
+    let want := s!"{sz} {dg}"
+    let t := if s'.size.toNat < st.s.size.toNat then t.bump "resets" else t
+    if got != want then .error s!"increment {k}: implementation {want}, model {got}"
+    else .ok ({ st with s := s' }, t.bump "increments")
+  | ["freq", k, "=>", f] =>
+    let got := (Impl.Sketch.frequencyH st.s (skHash st k.toNat!)).toNat
+    let t := if got == 15 then t.bump "saturated_reads" else t
+    if toString got != f then .error s!"frequency {k}: implementation {f}, model {got}"
+    else .ok (st, t.bump "frequencies")
+  | ["admit", _c, _v, draw, "=>", res, cf, vf] =>
+    let cfN := natOf [cf] "cf"
+    let vfN := natOf [vf] "vf"
+    let got := Impl.Sketch.admitDecision (BitVec.ofNat 64 cfN) (BitVec.ofNat 64 vfN) (BitVec.ofNat 32 draw.toNat!)
+    let t := if got then t.bump "admitted" else t.bump "rejected"
+    let t := if cfN ≥ 6 && cfN ≤ vfN && draw.toNat! % 128 == 0 then t.bump "jitter_cases" else t
+    if toString got != res then .error s!"admit (candidate estimate {cfN}, victim estimate {vfN}, draw {draw}): implementation {res}, model {got}"
+    else .ok (st, t)
+  | ["mix", x, "=>", a, b] =>
+    let xv := BitVec.ofNat 64 x.toNat!
+    let ga := (Gen.SketchMix.spread xv).toNat
+    let gb := (Gen.SketchMix.rehash xv).toNat
+    if toString ga != a || toString gb != b then .error s!"mixers on {x}: implementation {a} {b}, translated {ga} {gb}"
+    else .ok (st, t.bump "mixer_points")
+  | _ => .error s!"unknown line"
+
+/-- generic script loop: `step` per line, first failure of a script is reported, rest of the script skipped -/
+partial def loop {σ : Type} (h : IO.FS.Stream) (init : σ) (step : σ → String → Tally → Except String (σ × Tally))
+    (st : σ) (script : String) (lineNo : Nat) (skipping : Bool) (t : Tally) : IO Unit := do
+  let line ← h.getLine
+  if line.isEmpty then
+    IO.println t.summary
+    return
+  let line := (line.dropEndWhile (fun c => c == '\n' || c == '\r')).toString
+  if line.startsWith "script " then
+    loop h init step init ((line.drop 7).toString) 0 false { t with scripts := t.scripts + 1 }
+  else if skipping || line.isEmpty then
+    loop h init step st script (lineNo + 1) skipping t
+  else
+    match step st line { t with lines := t.lines + 1 } with
+    | .ok (st', t') => loop h init step st' script (lineNo + 1) false t'
+    | .error e =>
+      IO.println s!"FAIL script={script} line={lineNo} :: {e} :: {line}"
+      loop h init step st script (lineNo + 1) true { t with failed := t.failed + 1, lines := t.lines + 1 }
+
+def dispatch (cmd : String) (_args : List String) (h : IO.FS.Stream) : IO UInt32 := do
+  match cmd with
+  | "sketch" => loop h ({} : SkSt) skStep {} "" 0 false {}; return 0
+  | _ =>
+    IO.eprintln s!"unknown engine {cmd}"
+    return 2
 
 end Driver.Units
